@@ -296,10 +296,21 @@ class LockAnalysis(object):
             # typestate: which cleanups can this iterator carry?
             a = strip_casts(e["a"][0]) if e.get("a") else None
             names = None
+            local_regs = set()
+            if isinstance(a, dict) and a.get("k") == "var" and a.get("kind") in ("local", "param"):
+                # cleanups attached to this very variable inside this function
+                for b2, i2, e2 in fn.events("call"):
+                    if e2.get("f") == "ldb_iter_register_cleanup" and len(e2.get("a", [])) > 1 and \
+                            key(e2["a"][0]) == a["n"]:
+                        c2 = strip_casts(e2["a"][1])
+                        if isinstance(c2, dict) and c2.get("k") == "un":
+                            c2 = strip_casts(c2["x"])
+                        if isinstance(c2, dict) and c2.get("k") == "fn":
+                            local_regs.add(c2["n"])
             if isinstance(a, dict) and a.get("k") == "var" and a.get("kind") == "local":
                 cr = self._creator_of(fn, a["n"])
                 if cr is not None:
-                    names = self.cleanups_of_creator(fn, cr)
+                    names = set(self.cleanups_of_creator(fn, cr))
             if names is None:
                 self.cleanup_sets()
                 names = set(self._all_cleanups)
@@ -309,6 +320,7 @@ class LockAnalysis(object):
                 for cname, owners in RESTRICTED_CLEANUPS.items():
                     if fn.name not in owners:
                         names.discard(cname)
+            names |= local_regs
             out = []
             for n in sorted(names):
                 g = P.resolve(n, fn)
